@@ -17,10 +17,12 @@ comparisons, if/else orientation, guard clauses, positional vs keyword arguments
 not matter (they are removed by the term constructors of `terms.py` and by `norm` below).  Arithmetic
 inside the terms is additionally compared in linear normal form.
 
-Verdicts: equal summaries -> ok.  Different summaries with the same loop structure -> violation (the
-report shows the events that differ).  A different loop structure means the helper has been
-re-designed; the reference then has to be re-confirmed by a human -> AnalysisError (exit 2), never a
-violation and never a silent pass.
+Verdicts: equal summaries -> ok.  Different summaries -> violation; the report shows the events that
+differ.  (An earlier version answered "analysis error" when the number of loops differed, on the theory
+that this means a re-design; the first seeded change that replaced an inner loop by a comparison with
+the neighbouring element showed that realistic defects change the loop structure as well.)  A
+behaviour-preserving re-design of a referenced function therefore needs its reference re-confirmed:
+the report says which events differ, so the reader can decide quickly.
 """
 from __future__ import annotations
 import ast
@@ -245,9 +247,6 @@ def compare(ctx, target_q, spec_node, rule, what):
     if got.keys() == want.keys() or got.keys(arith=True) == want.keys(arith=True):
         ctx.ok(rule, construct, what)
         return True
-    if got.loops != want.loops:
-        raise AnalysisError(f"{target_q} has been restructured ({got.loops} loops, reference has {want.loops}): "
-                            f"the reference in sa/specs must be re-confirmed by hand")
     gk, wk = got.keys(arith=True), want.keys(arith=True)
     extra = [e for e in got.entries if (e[0], e[1], digest(_arith(e[2]))) not in wk]
     missing = [e for e in want.entries if (e[0], e[1], digest(_arith(e[2]))) not in gk]
